@@ -3,7 +3,11 @@ Tie: event traces recorded from the REAL ThreadPool through the cfg(rws_verif) h
 runs of the Lean model `Rws.Pool` (op pooltrace) ending with every submitted task done exactly
 once; the rendezvous probe makes the real pool EXHIBIT the model's "N running" state.
 Oracle on the implementation alone: every task body entered exactly once, every scenario
-(incl. N tasks blocking on a barrier of N) completes within 10 s."""
+(incl. N tasks blocking on a barrier of N) completes within 10 s.
+Second audit pass (audit/C07/AUDIT2.md, vlib/gen_c07.py `fixed2` / `slow2` / `huge`): the relations a FEATURE added to the pool would
+hinge on - where the rendezvous sits in a deep backlog, how long a job has been running / a queued job has been waiting when the next
+submit comes, how long and how often the pool was idle before a burst, how many jobs panicked on one pool.  The scripts whose submitter
+sleeps run in a lane of their own next to the main batch (`gen_slow`)."""
 from vlib import common as C
 from vlib import gen_c07 as G
 from props import pool_common as P
@@ -63,15 +67,61 @@ def gen(rng, tier):
 
 CLASS = {}   # scenario line -> audit class (for the counters of the evidence file)
 
+def gen_slow(rng, tier):
+    """second audit pass: the scenarios whose submitter sleeps (0.3 .. 7.2 s each).  They get a lane of their own - one harness process
+    per scenario, many at a time, started together with the main batch - so that they cost (almost) no run time"""
+    out = []
+    for cls, n, kinds, perturb in G.check_legal(G.slow2(tier)):
+        ln = P.scenario(n, kinds, rng.below(1 << 32), perturb)
+        CLASS[ln] = cls
+        out.append(ln)
+    return out
+
+def judge_huge(res, rng, tier):
+    """thorough only: histories of 34 000 .. 70 000 tasks on one pool, judged by the oracle alone (every body entered exactly once, the
+    scenario - ending with the rendezvous - completes, as many starts and ends in the trace as tasks); not replayed on the model"""
+    for cls, n, kinds, perturb in G.check_legal(G.huge(tier)):
+        ln = P.scenario(n, kinds, rng.below(1 << 32), perturb)
+        out = P.run_pool([ln], parallel=1)[0]
+        short = ln[:40] + '…' + ln[-40:]
+        res.count('class:' + cls + ' (oracle only)')
+        if not out.startswith('N='):
+            res.fail('pool-harness:' + (out.split() or ['?'])[0], short, out[:200], None, 'the pool scenario did not produce a result line'); continue
+        f = P.fields(out)
+        counts = [int(x) for x in f['counts'].split(',')]
+        tr = f['trace'].split(',')
+        ntasks = sum(1 for c in kinds if c not in 'wz')
+        bad = [(i, c) for i, c in enumerate(counts) if c != 1][:8]
+        if f['status'] != 'ok':
+            res.fail('pool-timeout', short, out[-300:], None, f'not every task completed within 10 s (first tasks not executed exactly once: {bad})')
+        elif bad:
+            res.fail('pool-exactly-once', short, out[-300:], None, f'tasks not executed exactly once: {bad}')
+        elif sum(1 for e in tr if e[0] == 'b') != ntasks or sum(1 for e in tr if e[0] in 'fc') != ntasks:
+            res.fail('pool-trace-count', short, out[-300:], None, f'task starts / ends in the trace differ from the {ntasks} tasks')
+
 def run(res, tier, seed):
     rng = C.Rng(seed)
     lines, nprobe = gen(rng, tier)
+    rng2 = rng.fork('audit2')
+    slow = gen_slow(rng2, tier)
     impl = P.run_pool(lines[:nprobe], parallel=1)
     if not any('status=timeout' in x for x in impl):
+        import threading
+        box = []
+        th = threading.Thread(target=lambda: box.append(P.run_pool(slow, parallel=12 if tier == 'quick' else 24, batch=1)))
+        th.start()
         impl += P.run_pool(lines[nprobe:])
+        th.join()
+        impl += box[0] if box else ['skipped'] * len(slow)
+        judge_huge(res, rng2, tier)
     else:
-        impl += ['skipped'] * (len(lines) - nprobe)
+        impl += ['skipped'] * (len(lines) - nprobe + len(slow))
+    lines = lines + slow
     answers = P.judge(res, 'C07', lines, impl)
+    # off by default (VERIF_C07_LOGPIPE=1): the real binary with its stdout on a pipe whose reader is gone / does not read - a finding on the
+    # unchanged tree outside the quantifier of C07, see props/c07_logpipe.py
+    from props import c07_logpipe
+    c07_logpipe.run_part(res)
     for ln, out in zip(lines, impl):
         if out == 'skipped': continue
         n, kinds = P.parse_scenario(ln)
@@ -81,10 +131,14 @@ def run(res, tier, seed):
         ntasks = sum(1 for c in kinds if c not in 'wz')
         res.count('tasks: ' + ('<=4N' if ntasks <= 4 * n else '<=16N' if ntasks <= 16 * n else '>16N'))
         if 'w' in kinds and 'b' in kinds: res.count('pause and rendezvous in one script')
+        if 'z' in kinds:
+            zs = max(len(x) for x in __import__('re').findall('z+', kinds))
+            res.count('longest sleep of the submitter: ' + ('0.3 s' if zs == 1 else '<= 0.9 s' if zs <= 3 else '<= 2.1 s' if zs <= 7 else '<= 3.3 s' if zs <= 11 else '> 3.3 s'))
         if ln in CLASS: res.count('class:' + CLASS[ln])
     res.rule = ('one case = one scenario (N in 1..8 and a few N in 9..64, 0..4N tasks - in the backlog / history classes up to '
                 'several thousand - of kinds instant/error/long/blocking-on-a-barrier-of-N/panicking, '
-                'submitter pauses (also between rendezvous rounds), seeded yields/sleeps at the four hook points) run on a fresh real ThreadPool; '
+                'submitter pauses (also between rendezvous rounds), submitter sleeps of 0.3 .. 3.3 s (thorough 7.2 s) with the pool idle or partly '
+                'blocked in a rendezvous that is completed afterwards, seeded yields/sleeps at the four hook points) run on a fresh real ThreadPool; '
                 'its recorded event trace is replayed on the model; distinct = distinct (scenario, trace) pairs')
     ms = [int(P.fields(o).get('ms', 0)) for ln, o in zip(lines, impl) if o.startswith('N=') and 'b' in P.parse_scenario(ln)[1]]
     if ms: res.notes.append(f'rendezvous scenarios: {len(ms)}, slowest {max(ms)} ms (timeout 10000 ms)')
@@ -93,4 +147,8 @@ def run(res, tier, seed):
             res.sample({'scenario': lines[k], 'implementation': impl[k][:300], 'model': answers.get(k)})
 
 def replay(rp):
+    case = rp.get('case') or (rp.get('correspondence') or {}).get('case')
+    if isinstance(case, dict) and case.get('mode') == 'log-pipe':
+        from props import c07_logpipe
+        return c07_logpipe.replay(case)
     return P.replay('C07', rp)
